@@ -93,6 +93,11 @@ func runC03(e *sim.Env) {
 	plan := makePlan(e, tree)
 	plan = append(plan, dominant.PathFromGenesis()[1:])
 
+	viaValidated := make([]bool, len(plan))
+	for i := range viaValidated {
+		viaValidated[i] = e.Chance(1, 2)
+	}
+
 	// uninterrupted reference run (no faults, no clock jumps)
 	refDisk := simdisk.New()
 	refOps := 0
@@ -192,7 +197,15 @@ func runC03(e *sim.Env) {
 					panic(r)
 				}
 			}()
-			err := s.cm.AddBlocks(blocksOf(batch))
+			// chains of v2 blocks above the require height also arrive through the
+			// syncer's pre-validated entry point
+			var err error
+			if states, ok := s.validatedStates(batch); ok && viaValidated[i] {
+				err = s.cm.AddValidatedV2Blocks(blocksOf(batch), states)
+				e.Probes["via_add_validated"]++
+			} else {
+				err = s.cm.AddBlocks(blocksOf(batch))
+			}
 			if errors.Is(err, errInjectedIO) {
 				crashed = true
 			}
@@ -322,7 +335,7 @@ func runC03(e *sim.Env) {
 
 func init() {
 	register(&Prop{
-		ID: "C03", Run: runC03, Quick: 320, Thorough: 8000, Level: "fault_enumeration",
+		ID: "C03", Run: runC03, Quick: 900, Thorough: 8000, Level: "fault_enumeration",
 		Rule:        "one run = one sampled history (network, fork tree with all transaction kinds, corrupted twins, submission plan, ending on a chain made dominant) executed with simulated clock jumps >= 5 s between drawn ApplyBlock/RevertBlock calls (so the store's own time-based flush commits inside reorgs) and optionally one injected I/O error; EVERY distinct committed image of that history (simdisk: content-hashed images at each Flush; 1 run in 8: real bbolt, file copy after each commit, first 10) is reopened and checked: opens without error, tip is the tip held at that commit, C01 audit, every best-chain supplement present, served view == linear twin and reference ledger, then the remaining plan is re-submitted and the final view must equal the uninterrupted run's; distinct = abstract trace of (mid-reorg?, height bucket, regime) per image; non-trivial = at least two images or one image committed by the store between two applies/reverts",
 		Real:        []string{"chain.Manager", "chain.DBStore", "coreutils.BoltChainDB + bbolt (1 run in 8)"},
 		Stub:        []string{"disk: simdisk.DB with explicit committed image / pending overlay (7 runs in 8)"},
